@@ -47,6 +47,9 @@ type Trace struct {
 	// keyed by the engine's variable name (nd!<name>!<site>, sel!..., env!...)
 	Inputs     map[string][]int64 `json:"inputs,omitempty"`
 	EnvCancels []EnvCancel        `json:"env_cancels,omitempty"`
+	// FinalFn: for every thread that the model leaves blocked: the function containing the
+	// blocked operation (the native goroutine must be blocked inside a function of that name)
+	FinalFn map[int]string `json:"final_fn,omitempty"`
 	// Files: source files of the functions the model executed (instrumented for the replay)
 	Files []string `json:"files,omitempty"`
 }
@@ -69,7 +72,13 @@ type thr struct {
 	reg    chan struct{}
 	yields int
 	nspawn int // children spawned so far
-	idx    int // number of children the parent had spawned before this one
+	// seen: statement ids whose yield this thread has passed or parked at
+	seen map[string]bool
+	// inOp: the thread is blocked natively inside the operation of statement parkedAt (the
+	// statement's yield was passed earlier: several visible operations in one statement)
+	inOp bool
+	gid  int64
+	idx  int // number of children the parent had spawned before this one
 }
 
 // wakeUp grants the thread (starting the goroutine of a timer callback first).
@@ -112,7 +121,8 @@ func AfterFunc(site string, d time.Duration, f func()) *time.Timer {
 	var tm *time.Timer
 	tm = time.AfterFunc(1000*time.Hour, func() {
 		mu.Lock()
-		byGID[goid()] = child
+		child.gid = goid()
+		byGID[child.gid] = child
 		mu.Unlock()
 		close(child.reg)
 		<-child.wake
@@ -195,6 +205,12 @@ func Yield(id string) {
 		events <- event{t, "exit", ""}
 		select {}
 	}
+	mu.Lock()
+	if t.seen == nil {
+		t.seen = map[string]bool{}
+	}
+	t.seen[id] = true
+	mu.Unlock()
 	if t.passOnce == id {
 		t.passOnce = ""
 		return
@@ -265,7 +281,8 @@ func Go(site string, fn func()) {
 	reg := make(chan struct{})
 	go func() {
 		mu.Lock()
-		byGID[goid()] = child
+		child.gid = goid()
+		byGID[child.gid] = child
 		mu.Unlock()
 		close(reg)
 		<-child.wake // parked at start until first granted
@@ -299,6 +316,8 @@ type Result struct {
 	Diverged  string   // non-empty: where the native run left the trace
 	Failures  []string // native assertion failures / panics
 	Blocked   []int    // threads still blocked after the trace
+	// BlockedIn: per blocked thread, the function names on its native stack
+	BlockedIn map[int][]string
 }
 
 // Run replays the trace, running entry as model thread 0.
@@ -320,7 +339,8 @@ func Run(tracePath string, entry func()) Result {
 	reg := make(chan struct{})
 	go func() {
 		mu.Lock()
-		byGID[goid()] = main
+		main.gid = goid()
+		byGID[main.gid] = main
 		mu.Unlock()
 		close(reg)
 		<-main.wake
@@ -472,8 +492,15 @@ func Run(tracePath string, entry func()) Result {
 		t.curStmt = st.Stmt
 		t.parkedAt = ""
 		fireEnv(st.Step)
-		logf("step %d: grant T%d at %s (next stop %s)", k, st.Th, st.Stmt, next)
-		t.wakeUp()
+		if t.inOp {
+			// the goroutine sits inside the native operation; other threads' steps (or the
+			// environment event just fired) make it proceed by itself
+			t.inOp = false
+			logf("step %d: T%d proceeds from inside %s (next stop %s)", k, st.Th, st.Stmt, next)
+		} else {
+			logf("step %d: grant T%d at %s (next stop %s)", k, st.Th, st.Stmt, next)
+			t.wakeUp()
+		}
 		select {
 		case ev := <-events:
 			if ev.t != t {
@@ -482,11 +509,25 @@ func Run(tracePath string, entry func()) Result {
 			}
 			logf("   T%d %s %s", t.id, ev.kind, ev.at)
 		case <-time.After(1500 * time.Millisecond):
-			if next != "" {
+			mu.Lock()
+			passed := t.seen[next]
+			mu.Unlock()
+			if next != "" && passed {
+				// the next operation belongs to a statement the thread has already entered
+				// (e.g. a call made while evaluating the statement took a step of its own):
+				// the goroutine is now blocked inside that statement's operation
+				t.parkedAt = next
+				t.inOp = true
+				if len(t.future) > 0 {
+					t.future = t.future[1:]
+				}
+				logf("   T%d is blocked inside %s", t.id, next)
+			} else if next != "" {
 				res.Diverged = fmt.Sprintf("step %d: T%d blocked natively before reaching %s", k, t.id, next)
 				return finish(res)
+			} else {
+				logf("   T%d blocked (no further steps in trace)", t.id)
 			}
-			logf("   T%d blocked (no further steps in trace)", t.id)
 		}
 		if len(Failures) > 0 {
 			break // the violation has been observed natively
@@ -524,12 +565,29 @@ loop:
 	return finish(res)
 }
 
+var fnRe = regexp.MustCompile(`(?m)^([^\s][^\n]*)\([^()\n]*\)$`)
+
 func finish(res Result) Result {
+	buf := make([]byte, 1<<20)
+	n := runtime.Stack(buf, true)
+	blocks := strings.Split(string(buf[:n]), "\n\n")
 	mu.Lock()
 	res.Failures = append([]string(nil), Failures...)
+	res.BlockedIn = map[int][]string{}
 	for id, t := range threads {
 		if !t.done {
 			res.Blocked = append(res.Blocked, id)
+			hdr := fmt.Sprintf("goroutine %d [", t.gid)
+			for _, b := range blocks {
+				if strings.HasPrefix(b, hdr) {
+					Log = append(Log, fmt.Sprintf("blocked T%d stack:\n%s", id, b)) // mu is held
+					for i, m := range fnRe.FindAllStringSubmatch(b, -1) {
+						if i < 14 {
+							res.BlockedIn[id] = append(res.BlockedIn[id], m[1])
+						}
+					}
+				}
+			}
 		}
 	}
 	mu.Unlock()
